@@ -546,6 +546,176 @@ def check_wrappers_nd(ctx, case, prev):
     return run_nd_calls(ctx, config, do_cache, calls, sub)
 
 
+def table_function():
+    """a Function given by a value table on the dyadic points (deterministic, exact in floating point)"""
+    from sparseSpACE.Function import Function
+
+    class TableFunction(Function):
+        def eval(self, coordinates):
+            x = coordinates[0] if hasattr(coordinates, "__len__") else coordinates
+            return float(table_value(Fr(float(x))))
+
+        def getAnalyticSolutionIntegral(self, start, end):
+            return 0.0
+
+    return TableFunction()
+
+
+def table_value(x):
+    return Fr((int(x * 1024) * 7 + 3) % 23 - 11, 8)
+
+
+HISTORY_FUNCS = ["const", "linear", "table"]
+
+
+def history_f(name):
+    from sparseSpACE.Function import Polynomial1d
+    if name == "const":
+        return Polynomial1d([1.0]), (lambda x: Fr(1))
+    if name == "linear":
+        return Polynomial1d([0.5, 2.0]), (lambda x: Fr(1, 2) + 2 * x)
+    return table_function(), table_value
+
+
+def run_history(ctx, drv, hist):
+    """ONE ExtrapolationGrid (or BalancedExtrapolationGrid) object through successive set_grid calls; after every
+    call integrate(f) / get_weights() must be those of the CURRENT grid: compared with a fresh object (exact), with
+    the model's weights applied to f, and for constants / linear functions with the exact integral"""
+    ex = E()
+    steps = hist["steps"]
+    ok = True
+    if hist.get("balanced"):
+        obj = ex.BalancedExtrapolationGrid()
+        tags = {"object": "BalancedExtrapolationGrid", "steps": len(steps)}
+        for i, (g, lv) in enumerate(steps):
+            grid = [Fr(x) for x in g]
+            try:
+                obj.set_grid([float(x) for x in grid], list(lv))
+                got = [float(x) for x in obj.get_weights()]
+            except Exception as exn:
+                got = "error"
+            fresh = ex.BalancedExtrapolationGrid()
+            try:
+                fresh.set_grid([float(x) for x in grid], list(lv))
+                want = [float(x) for x in fresh.get_weights()]
+            except Exception:
+                want = "error"
+            if got != want:
+                ok = False
+                ctx.violation("history-balanced", dict(tags, step=i), hist, {"reused": str(got)[:300], "fresh": str(want)[:300]})
+                break
+            m = drv.ask("bal %s %s" % (rats(grid), nats(lv)))
+            if (got == "error") != (m == "error") or (got != "error" and any(
+                    not close(x, y, TOL_CORR) for x, y in zip(got, parse_vec(m[3:])))):
+                ok = False
+                ctx.corr_break("C11/history-balanced", dict(hist, step=i), {"impl": str(got)[:300], "model": m[:300]})
+                break
+        ctx.count("history_balanced")
+        return ok
+    gname, sname, cname, fb = hist["config"]
+    gi = dict(GROUPINGS)[gname]
+    si = dict(SLICES)[sname]
+    ci = dict(CONTAINERS)[cname]
+    tags = {"object": "ExtrapolationGrid", "grouping": gname, "slice": sname, "container": cname,
+            "force_balanced": fb, "steps": len(steps)}
+    obj = ex.ExtrapolationGrid(slice_grouping=ex.SliceGrouping[gname], slice_version=ex.SliceVersion[sname],
+                               container_version=ex.SliceContainerVersion[cname], force_balanced_refinement_tree=fb)
+    for i, (g, lv) in enumerate(steps):
+        grid = [Fr(x) for x in g]
+        line = "%d %d %d %d %s %s" % (gi, si, ci, 1 if fb else 0, rats(grid), nats(lv))
+        m_w = drv.ask("wts " + line)
+        try:
+            quiet(lambda: obj.set_grid([float(x) for x in grid], list(lv)))
+            status = "ok"
+        except AssertionError:
+            status = "assert-set-grid"
+        except Exception as exn:
+            status = "exc:" + type(exn).__name__
+        if status != "ok":
+            if m_w != status:
+                ok = False
+                ctx.corr_break("C11/history-outcome", dict(hist, step=i), {"impl": status, "model": m_w[:200]})
+                break
+            continue
+        if not m_w.startswith("ok "):
+            ok = False
+            ctx.corr_break("C11/history-outcome", dict(hist, step=i), {"impl": "ok", "model": m_w[:200]})
+            break
+        mw = parse_vec(m_w[3:])
+        eg = [Fr(x) for x in obj.get_grid()]
+        a, b = eg[0], eg[-1]
+        st, fresh = impl_grid(gname, sname, cname, fb, grid, lv)
+        bad = []
+        for fname in hist["funcs"]:
+            f, fx = history_f(fname)
+            try:
+                got = float(obj.integrate(f))
+            except Exception as exn:
+                bad.append((fname, "integrate raises " + type(exn).__name__, None, None))
+                continue
+            want = float(fresh.integrate(history_f(fname)[0])) if st == "ok" else None
+            if want is None or got != want:
+                bad.append((fname, "differs from a fresh object", got, want))
+            model = sum(w * fx(x) for w, x in zip(mw, eg)) if len(mw) == len(eg) else None
+            if model is None or abs(got - float(model)) > 1e-11 * max(1.0, abs(float(model)), float(b - a) * 4):
+                ok = False
+                ctx.corr_break("C11/history-integrate", dict(hist, step=i, f=fname),
+                               {"impl": got, "model": None if model is None else float(model)})
+            if fname in ("const", "linear"):
+                exact = (b - a) if fname == "const" else (Fr(1, 2) * (b - a) + (b * b - a * a))
+                if abs(got - float(exact)) > TOL_ORACLE * max(1.0, abs(float(exact))):
+                    bad.append((fname, "not the exact integral", got, float(exact)))
+        gw = impl_weights(obj)[1]
+        fw = impl_weights(fresh)[1] if st == "ok" else None
+        if gw != fw:
+            bad.append(("get_weights", "differs from a fresh object", str(gw)[:200], str(fw)[:200]))
+        if bad:
+            ok = False
+            ctx.violation("history-integrate", dict(tags, step=i), hist, {"failed": [list(map(str, x)) for x in bad[:4]]})
+            break
+    ctx.count("history_extrapolation")
+    return ok
+
+
+def mirrored(rel, lv):
+    return [1 - x for x in reversed(rel)], list(reversed(lv))
+
+
+def check_histories(ctx, drv, case, prev):
+    r = ctx.rng
+    grid = [Fr(x) for x in case["grid"]]
+    lv = [int(l) for l in case["levels"]]
+    if len(grid) < 2 or grid[-1] <= grid[0]:
+        return True
+    rel = [(x - grid[0]) / (grid[-1] - grid[0]) for x in grid]
+    other_dom = lambda: r.choice([d for d in DOMAINS if d != (grid[0], grid[-1])])
+    mk = lambda rl, l, dom: ([frac_str(x) for x in place_tree(rl, dom[0], dom[1])], list(l))
+    variants = [mk(rel, lv, other_dom()),                            # same tree on another interval
+                mk(*mirrored(rel, lv), dom=(grid[0], grid[-1])),     # mirrored tree, same interval, same count
+                mk(*mirrored(rel, lv), dom=other_dom())]
+    g2, l2 = gen_refinement_tree(r, len(grid), r.choice(["uniform", "deep", "breadth"]))
+    variants.append(([frac_str(x) for x in g2], l2))                 # another tree with the same number of points
+    if prev is not None:
+        variants.append((list(prev["grid"]), list(prev["levels"])))  # (usually) another number of points
+    if r.random() < 0.15 and len(grid) > 2:
+        bg, bl, _ = malform(r, grid, lv)
+        variants.append(([frac_str(x) for x in bg], list(bl)))       # a rejected set_grid in the middle
+    r.shuffle(variants)
+    steps = [(list(case["grid"]), lv)] + variants[:r.randint(1, 3)]
+    if r.random() < 0.5:
+        steps.append((list(case["grid"]), lv))
+    config = [r.choice(GROUPINGS)[0], r.choice(SLICES)[0], r.choice(CONTAINERS)[0], r.random() < 0.4]
+    hist = {"kind": "history", "config": config, "steps": steps, "funcs": HISTORY_FUNCS}
+    ok = run_history(ctx, drv, hist)
+    if case["kind"] in ("full", "complete") and len(grid) >= 3:
+        bsteps = [(list(case["grid"]), lv), mk(*mirrored(rel, lv), dom=other_dom()), mk(rel, lv, other_dom())]
+        if prev is not None and r.random() < 0.5:
+            bsteps.insert(r.randint(1, 2), (list(prev["grid"]), list(prev["levels"])))   # may be rejected (not full)
+        bsteps.append((list(case["grid"]), lv))
+        ok = run_history(ctx, drv, {"kind": "history", "balanced": True, "steps": bsteps}) and ok
+    return ok
+
+
 def check_factories(ctx, drv, r, n):
     ex = E()
     ok = True
@@ -604,6 +774,7 @@ def run_case(ctx, drv, case, prev=None):
     if valid:
         ok = check_wrappers(ctx, case, prev) and ok
         ok = check_wrappers_nd(ctx, case, prev) and ok
+        ok = check_histories(ctx, drv, case, prev) and ok
     return ok
 
 
@@ -669,6 +840,16 @@ def run(ctx):
 def replay(ctx, rp):
     case = rp["case"]
     drv = ctx.driver("drv_c11")
+    if case.get("kind") == "history":
+        ok = run_history(ctx, drv, case)
+        print("replay: %s" % ("property holds and model agrees on this history" if ok else "REPRODUCED"))
+        for v in ctx.violations[:4]:
+            print("  violation:", v["probe"], v["tags"], v["detail"])
+        for c in ctx.corr_breaks[:4]:
+            print("  disagreement:", c["observable"], c["detail"])
+        for d in ctx._drivers:
+            d.close()
+        return 0 if ok else 1
     if case.get("kind") == "wrapper-nd":
         ok = run_nd_calls(ctx, case["config"], case["do_cache"], case["calls"], case)
         print("replay: %s" % ("property holds on this case" if ok else "REPRODUCED"))
